@@ -1,7 +1,7 @@
 """
 C18: a python/* tag or an unregistered !tag on the value of a YAML merge key is rejected like at any other position.
 
-On the pinned tree (before fix 9b66fdf) the three merge documents below loaded WITHOUT an error: PyYAML's
+On the pinned tree (before fixes 9b66fdf / b340bae) the three merge documents below loaded WITHOUT an error: PyYAML's
 SafeConstructor.flatten_mapping splices the content of `<<` values into the enclosing mapping and never looks at the
 tag of the value node.  Run with  PYTHONPATH=<tree>/src /venv/bin/python -m pytest -q -p no:cacheprovider <this file>
 """
@@ -18,6 +18,9 @@ from cobald.daemon.core.config import COBalDLoader
         "a: {<<: !Unregistered {x: 1}}",
         "a: {<<: [{y: 2}, !Unregistered {x: 1}]}",
         "a: {<<: {<<: !!python/object/new:os.system {x: 1}, z: 3}}",
+        # the tag on a LIST of merge values (only fixed by b340bae)
+        "a: {<<: !!python/tuple [{a: 1}]}",
+        "a: {<<: !Nope [{a: 1}]}",
     ],
 )
 def test_tag_on_merge_value_is_rejected(document):
